@@ -184,7 +184,7 @@ namespace sim
       bool uncounted_units = false;
       if( c.prog == 0 ) {
          for( const NodeRow& row : c.g.n ) {
-            if( row.op == OP_ATOM && ( row.atom == ATOM_UTF16_LE_RANGE || row.atom == ATOM_UINT32_ONE ) ) {
+            if( row.op == OP_ATOM && row.atom != ATOM_BOL && ( atom_meta[ row.atom % N_ATOMS ].caps & CAP_COLUMN ) != 0 ) {
                uncounted_units = true;
             }
          }
